@@ -89,7 +89,7 @@ impl Gen {
     fn send(&mut self, ep: u8) {
         let vital = self.s.chance(self.vital_pct, 100);
         let len = self.len();
-        let fill = self.s.below(4) as u8;
+        let fill = self.s.below(5) as u8;
         let tag = self.tag();
         self.ops.push(NetOp::Send { ep, vital, len, fill, tag });
     }
@@ -145,7 +145,9 @@ pub fn generate(prop: NetProp, seed: u64, tier: Tier) -> Case<NetCfg, NetOp> {
     let reorder = if on(&mut c, 50) { c.range(30, 300) * scale } else { 0 };
     let sendfail = if on(&mut c, 25) { c.range(5, 40) } else { 0 };
     let skew = on(&mut c, 40);
-    let weak = if prop == NetProp::C03 && c.chance(1, 3) { [c.below(4) as u8, c.below(4) as u8] } else if !fault_free && c.chance(1, 20) { [c.below(3) as u8, c.below(3) as u8] } else { [0, 0] };
+    // the first k draws of an endpoint return reserved patterns (all-ones / all-zeroes in any sequence); k up to 7:
+    // a retry loop around the draw must cope with several reserved values in a row
+    let weak = if prop == NetProp::C03 && c.chance(1, 3) { [*c.pick(&[0u8, 1, 2, 3, 3, 4, 5, 7]), *c.pick(&[0u8, 1, 2, 3, 3, 4, 5, 7])] } else if !fault_free && c.chance(1, 20) { [*c.pick(&[0u8, 1, 2, 3, 4, 6]), *c.pick(&[0u8, 1, 2, 3, 4, 6])] } else { [0, 0] };
     let size_profile = match prop {
         NetProp::C03 => *c.pick(&[0u8, 1, 1, 4]),
         NetProp::C02 => *c.pick(&[0u8, 1, 1, 1, 2, 3]),
@@ -203,6 +205,7 @@ pub fn generate(prop: NetProp, seed: u64, tier: Tier) -> Case<NetCfg, NetOp> {
         age,
         weak_rng: weak,
         stateless_accept,
+        alien_token: if prop == NetProp::C03 && proto == Proto::V6Token && c.chance(1, 5) { 1 + c.below(2) as u8 } else { 0 },
         profile: format!(
             "faults[loss={} dup={} reorder={} sendfail={} skew={} weak={:?} forge={}] size={} ops={} n~{} sessions={}",
             loss, dup, reorder, sendfail, skew, weak, forge, size_profile, op_profile, n_target, sessions
@@ -313,7 +316,7 @@ pub fn generate(prop: NetProp, seed: u64, tier: Tier) -> Case<NetCfg, NetOp> {
         let k = g.s.range(2, 6);
         for i in 0..k {
             let len = g.s.range(200, 1000).min(g.max_len as u64) as u32;
-            let fill = g.s.below(4) as u8;
+            let fill = g.s.below(5) as u8;
             let tag = g.tag();
             g.ops.push(NetOp::Send { ep, vital: true, len, fill, tag });
             g.ops.push(NetOp::Flush { ep });
@@ -346,7 +349,7 @@ pub fn generate(prop: NetProp, seed: u64, tier: Tier) -> Case<NetCfg, NetOp> {
         let every = g.s.range(1, 60);
         for k in 0..n {
             let len = g.s.range(0, 3) as u32;
-            let fill = g.s.below(4) as u8;
+            let fill = g.s.below(5) as u8;
             let tag = g.tag();
             g.ops.push(NetOp::Send { ep, vital: true, len, fill, tag });
             if k % every == 0 {
